@@ -18,6 +18,37 @@ pub open spec fn first_hit<P: Fn(&u8) -> bool>(b: Seq<u8>, p: P, k: int) -> bool
 pub open spec fn cut_of(ret: Result<(&str, &[u8]), ParseError>) -> int {
     match ret { Ok((s, _)) => str_bytes(s).len() as int, Err(e) => e.line@.len() as int }
 }
+// summary used by the record parsers: `after` is a suffix of `before` and the consumed bytes contain no line terminator
+#[verifier::opaque]
+pub open spec fn consumed_clean(before: Seq<u8>, after: Seq<u8>) -> bool {
+    after.len() <= before.len() && after == before.subrange(before.len() - after.len(), before.len() as int)
+    && (forall|j: int| 0 <= j < before.len() - after.len() ==> !spec_is_newline(#[trigger] before[j]))
+}
+pub proof fn lemma_consumed_intro(before: Seq<u8>, after: Seq<u8>, n: int)
+    requires 0 <= n <= before.len(), after == before.subrange(n, before.len() as int), forall|j: int| 0 <= j < n ==> !spec_is_newline(#[trigger] before[j]),
+    ensures consumed_clean(before, after),
+{ reveal(consumed_clean); }
+pub proof fn lemma_consumed_refl(b: Seq<u8>)
+    ensures consumed_clean(b, b),
+{ reveal(consumed_clean); assert(b.subrange(0, b.len() as int) =~= b); }
+pub proof fn lemma_consumed_trans(a: Seq<u8>, b: Seq<u8>, c: Seq<u8>)
+    requires consumed_clean(a, b), consumed_clean(b, c),
+    ensures consumed_clean(a, c),
+{
+    reveal(consumed_clean);
+    let n1 = a.len() - b.len(); let n2 = b.len() - c.len();
+    assert(c =~= a.subrange(n1 + n2, a.len() as int));
+    assert forall|j: int| 0 <= j < n1 + n2 implies !spec_is_newline(#[trigger] a[j]) by { if j >= n1 { assert(a[j] == b[j - n1]); } }
+}
+pub proof fn lemma_consumed_taken(b0: Seq<u8>, cur: Seq<u8>)
+    requires consumed_clean(b0, cur), cur.len() < b0.len(),
+    ensures taken_within_first_line(b0, skip_nl(cur)),
+{
+    reveal(consumed_clean);
+    let k = b0.len() - cur.len();
+    assert forall|j: int| 0 <= j < k implies !spec_is_newline(#[trigger] b0.subrange(0, k)[j]) by { assert(b0.subrange(0, k)[j] == b0[j]); }
+    assert(no_nl(b0.subrange(0, k)));
+}
 pub open spec fn split_ok(b: Seq<u8>, k: int, ret: Result<(&str, &[u8]), ParseError>) -> bool {
     match ret {
         Ok((s, rest)) => valid_utf8(b.subrange(0, k)) && str_bytes(s) == b.subrange(0, k) && rest@ == b.subrange(k, b.len() as int),
@@ -84,7 +115,12 @@ pub struct ExUtf8Error(std::str::Utf8Error);
     f.contract("""    ensures /*@L:strips_exactly_the_prefix_or_errors:C05,C06*/ match ret {
         Ok(rest) => prefix@.len() <= bytes@.len() && bytes@.subrange(0, prefix@.len() as int) == prefix@ && rest@ == bytes@.subrange(prefix@.len() as int, bytes@.len() as int),
         Err(e) => !(prefix@.len() <= bytes@.len() && bytes@.subrange(0, prefix@.len() as int) == prefix@) && e.line@ == bytes@,
-    },""")
+    },
+        /*@L:prefix_step_stays_within_the_line:C06*/ (ret is Ok && no_nl(prefix@)) ==> consumed_clean(bytes@, ret->Ok_0@),""")
+    f.before_tail("""proof { if no_nl(prefix@) && prefix@.len() <= bytes@.len() && bytes@.subrange(0, prefix@.len() as int) == prefix@ {
+        assert forall|j: int| 0 <= j < prefix@.len() implies !spec_is_newline(#[trigger] bytes@[j]) by { assert(bytes@[j] == bytes@.subrange(0, prefix@.len() as int)[j]); }
+        lemma_consumed_intro(bytes@, bytes@.subrange(prefix@.len() as int, bytes@.len() as int), prefix@.len() as int); } }
+    """)
     u.emit(f)
 
     # ---------------- parse_until ----------------
@@ -119,11 +155,15 @@ pub struct ExUtf8Error(std::str::Utf8Error);
             Ok((s, rest)) => valid_utf8(bytes@.subrange(0, k)) && str_bytes(s) == bytes@.subrange(0, k) && rest@ == bytes@.subrange(k, bytes@.len() as int)
                 && (k < bytes@.len() ==> !spec_is_newline(bytes@[k]) && predicate.ensures((&bytes@[k],), true)),
             Err(e) => (!valid_utf8(bytes@.subrange(0, k)) || (k < bytes@.len() && spec_is_newline(bytes@[k]))) && e.line@ == bytes@.subrange(0, k),
-        } }),""")
+        } }),
+        /*@L:scan_step_stays_within_the_line:C06*/ ret is Ok ==> consumed_clean(bytes@, ret->Ok_0.1@) && str_no_nl(ret->Ok_0.0),""")
     f.body_start("let ghost b0 = bytes@;\n")
     f.insert_before("if !bytes.is_empty() && is_newline(&bytes[0])", """proof {
                 let k = str_bytes(slice).len() as int;
                 if k < b0.len() { assert(bytes@[0] == b0[k]); }
+                lemma_consumed_intro(b0, bytes@, k);
+                reveal(str_no_nl);
+                assert forall|j: int| 0 <= j < k implies !spec_is_newline(#[trigger] str_bytes(slice)[j]) by { assert(str_bytes(slice)[j] == b0[j]); }
             }
             """)
     u.emit(f)
@@ -143,11 +183,13 @@ pub struct ExUtf8Error(std::str::Utf8Error);
         && match ret {
             Ok((v, rest)) => rest@ == bytes@.subrange(k, bytes@.len() as int) && valid_utf8(bytes@.subrange(0, k)) && spec_parse_usize(bytes@.subrange(0, k)) == Some(v),
             Err(e) => e.line@ == bytes@.subrange(0, k) && (!valid_utf8(bytes@.subrange(0, k)) || spec_parse_usize(bytes@.subrange(0, k)) is None),
-        } }),""")
+        } }),
+        /*@L:number_step_stays_within_the_line:C06*/ ret is Ok ==> consumed_clean(bytes@, ret->Ok_0.1@),""")
     f.after_stmt("let (slice, rest) = match", """    proof {
         let k = slice@.len() as int;
         assert(slice@ =~= bytes@.subrange(0, k));
         assert(rest@ =~= bytes@.subrange(k, bytes@.len() as int));
+        lemma_consumed_intro(bytes@, rest@, k);
     }
 """)
     u.emit(f)
@@ -320,6 +362,7 @@ pub proof fn lemma_sfp_no_nl()
     f.after_stmt("let (value, bytes) = parse_until", "        let ghost v1 = bytes@;\n")
     f.after_stmt("let bytes = parse_prefix(bytes, br#", "        let ghost v2 = bytes@;\n")
     f.insert_before("Ok((record, consume_leading_newlines(bytes)))", """proof {
+            reveal(str_no_nl);
             let v = str_bytes(value);
             let k = v.len() as int;
             assert(has_prefix(body, lit_sfp()));
@@ -349,6 +392,7 @@ pub proof fn lemma_sfp_no_nl()
     f.after_stmt("let (key, bytes) = parse_until(", "        let ghost k1 = bytes@;\n")
     f.after_stmt("let (value, bytes) = match parse_prefix(", "        let ghost k2 = bytes@;\n")
     f.insert_before("Ok((record, consume_leading_newlines(bytes)))", """proof {
+            reveal(str_no_nl);
             let kb = str_bytes(key);
             let k = kb.len() as int;
             assert(!has_prefix(body, lit_sfp()));
@@ -394,6 +438,88 @@ pub proof fn lemma_sfp_no_nl()
             }
         }
         """, occ=2)
+    u.emit(f)
+
+    # ---------------- parse_proguard_field_or_method ----------------
+    MSPEC = """
+// `cur` is the suffix of b0 that is still to be parsed, and everything consumed so far contains no line terminator
+pub open spec fn clean_prefix(b0: Seq<u8>, cur: Seq<u8>) -> bool {
+    cur.len() <= b0.len() && cur == b0.subrange(b0.len() - cur.len(), b0.len() as int) && no_nl(b0.subrange(0, b0.len() - cur.len()))
+}
+pub proof fn lemma_clean_step(b0: Seq<u8>, cur: Seq<u8>, next: Seq<u8>, n: int)
+    requires clean_prefix(b0, cur), 0 <= n <= cur.len(), next == cur.subrange(n, cur.len() as int),
+        forall|j: int| 0 <= j < n ==> !spec_is_newline(#[trigger] cur[j]),
+    ensures clean_prefix(b0, next),
+{
+    let o = b0.len() - cur.len();
+    assert(next =~= b0.subrange(o + n, b0.len() as int));
+    assert forall|j: int| 0 <= j < o + n implies !spec_is_newline(#[trigger] b0.subrange(0, o + n)[j]) by {
+        if j < o { assert(b0.subrange(0, o)[j] == b0[j]); } else { assert(cur[j - o] == b0[j]); }
+    }
+}
+pub proof fn lemma_clean_taken(b0: Seq<u8>, cur: Seq<u8>)
+    requires clean_prefix(b0, cur), cur.len() < b0.len(),
+    ensures taken_within_first_line(b0, skip_nl(cur)),
+{ lemma_taken(b0, b0.len() - cur.len(), skip_nl(cur)); }
+pub proof fn lemma_numeric_no_nl(b: Seq<u8>, k: int)
+    requires 0 <= k <= b.len(), forall|j: int| 0 <= j < k ==> spec_byte_is_numeric(#[trigger] b[j]),
+    ensures no_nl(b.subrange(0, k)),
+{ assert forall|j: int| 0 <= j < k implies !spec_is_newline(#[trigger] b.subrange(0, k)[j]) by { assert(b.subrange(0, k)[j] == b[j]); } }
+"""
+    u.raw(MSPEC, "member_spec")
+    f = mp.fn("parse_proguard_field_or_method")
+    f.ret("ret")
+    f.props_all = ["C05", "C06"]; f.props_safety = P13
+    for occ in (1, 2, 3):
+        f.closure("|c|", occ=occ, params="|c: &u8|", ret="r: bool", spec="ensures r == ({specbody})", spec_map=SPEC_MAP)
+    f.replace_all_re(r"parse_until\(bytes, is_newline\)", "parse_until(bytes, |b: &u8| -> (r: bool) ensures r == spec_is_newline(*b) { is_newline(b) })", "R3",
+                     why="fn item `is_newline` passed as predicate: eta-expanded into a closure carrying its contract", min_count=1)
+    # R5 (trusted region): the three rsplitn statements
+    f.replace_re(r"let mut split_class = original\.rsplitn\(2, '\.'\);\s*let original = split_class\.next\(\)\.ok_or\(ParseError \{\s*line: bytes,\s*kind: ParseErrorKind::ParseError\(\"line is not a valid proguard record\"\),\s*\}\)\?;\s*let original_class = split_class\.next\(\);",
+                 """let ghost orig_full = str_bytes(original);
+            proof { reveal(str_no_nl); }
+            let (original, original_class) = shim_rsplit_class(original);
+            proof {
+                reveal(str_no_nl);
+                match spec_last_dot(orig_full) {
+                    Some(d) => { lemma_sub_no_nl(orig_full, 0, d); lemma_sub_no_nl(orig_full, d + 1, orig_full.len() as int); },
+                    None => {},
+                }
+            }""", "R5",
+                 why="str::rsplitn (Pattern API) is outside Verus' reach: the three statements are replaced by a shim with the assumed contract 'split at the last dot' (rsplitn(2, _) always yields a first item, so the ok_or error is unreachable)")
+    f.contract("""    ensures
+        /*@L:member_strings_have_no_line_terminator:C06*/ match ret {
+            Ok((ProguardRecord::Field { ty, original, obfuscated }, _)) => str_no_nl(ty) && str_no_nl(original) && str_no_nl(obfuscated),
+            Ok((ProguardRecord::Method { ty, original, obfuscated, arguments, original_class, line_mapping }, _)) =>
+                str_no_nl(ty) && str_no_nl(original) && str_no_nl(obfuscated) && str_no_nl(arguments) && opt_no_nl(original_class),
+            Ok((_, _)) => false,
+            Err(_) => true,
+        },
+        /*@L:member_record_taken_within_first_line:C06*/ ret is Ok ==> taken_within_first_line(bytes@, ret->Ok_0.1@),""")
+    f.body_start("let ghost b0 = bytes@;\n    proof { axiom_byte_literals(); lemma_consumed_refl(b0); assert(no_nl(b\"    \"@) && no_nl(b\":\"@) && no_nl(b\" \"@) && no_nl(b\"(\"@) && no_nl(b\")\"@) && no_nl(b\" -> \"@)); }\n")
+    # every statement that rebinds `bytes` (at any nesting depth) is one parsing step: the consumed bytes contain no line terminator
+    stmts = []
+    for m in re.finditer(r"let\s+(?:\(\w+,\s*bytes\)|bytes)\s*=", f.orig):
+        stmts.append(f.stmt_extent(m.start()))
+    STEP = "proof { /*@L:consumed_bytes_stay_within_the_line:C06*/ lemma_consumed_refl(cur%d); lemma_consumed_trans(b0, cur%d, bytes@); }"
+    for k, (a, b) in enumerate(stmts):
+        inner = [x for x in stmts if a < x[0] < b]
+        f.insert_at(a, "let ghost cur%d = bytes@;\n    " % k)
+        if inner:
+            f.insert_at(b, "\n    proof { /*@L:consumed_bytes_stay_within_the_line:C06*/ assert(consumed_clean(b0, bytes@)); }")
+        elif re.match(r"let\s+\(obfuscated,\s*bytes\)\s*=\s*parse_until\(", f.orig[a:b]):
+            # the last scan uses the generic parse_until with `is_newline` itself as the stop set
+            f.insert_at(b, "\n    proof { /*@L:consumed_bytes_stay_within_the_line:C06*/ lemma_consumed_intro(cur%d, bytes@, str_bytes(obfuscated).len() as int); lemma_consumed_trans(b0, cur%d, bytes@);"
+                           " reveal(str_no_nl); assert forall|j: int| 0 <= j < str_bytes(obfuscated).len() implies !spec_is_newline(#[trigger] str_bytes(obfuscated)[j]) by { assert(str_bytes(obfuscated)[j] == cur%d[j]); } }" % (k, k, k))
+        else:
+            f.insert_at(b, "\n    " + STEP % (k, k))
+    for m in re.finditer(r"Ok\(bytes\)\s*=>\s*\{", f.orig):
+        encl = [k for k, (a, b) in enumerate(stmts) if a < m.start() < b]
+        if not encl:
+            continue
+        k = max(encl, key=lambda k: stmts[k][0])
+        f.insert_at(m.end(), "\n    " + STEP % (k, k))
+    f.insert_before("Ok((record, consume_leading_newlines(bytes)))", "proof { lemma_consumed_taken(b0, bytes@); }\n    ")
     u.emit(f)
 
     u.raw(FOOTER, "footer")
